@@ -49,7 +49,10 @@ func c03Prop(c QueryCase) ev.Outcome {
 	g := c.Q
 	if !g.Grouped {
 		g = *c.Q.From.Sub
-		o.Classes = append(o.Classes, "having_like_outer_where")
+		if c.Q.Where != nil {
+			o.Classes = append(o.Classes, "having_like_outer_where")
+		}
+		o.Classes = append(o.Classes, unusedAggClasses(c.Q)...)
 	}
 	res := model.Eval(g, c.Catalog())
 	nullKey, allNullAgg, multiRow := false, false, false
@@ -86,12 +89,13 @@ func c03Prop(c QueryCase) ev.Outcome {
 
 func TestC03(t *testing.T) {
 	r := ev.New("C03", "exploration",
-		"one generated CSV/JSON table x GROUP BY queries with 0-3 key expressions, 1-4 aggregates from count(*)/count/sum/avg/min/max/array_agg and their DISTINCT variants over Int/Float (String/Boolean for count and array_agg), optional WHERE below and HAVING-like WHERE above; "+
+		"one generated CSV/JSON table ("+
+			"CSV tables carry a Time column in about a third of the cases (RFC3339 cells from a small pool of instants incl. pre-1970 and year 2262, each written in one of the spellings Z/+02:00/-04:00/+05:30/-00:00/+00:00, so one instant under several spellings is frequent)) x GROUP BY queries with 0-3 key expressions (Time columns and COALESCE of them included), 1-5 aggregates from count(*)/count/sum/avg/min/max/array_agg and their DISTINCT variants over Int/Float (String/Boolean/Time for count and array_agg, Time for max: octosql has no min/sum/avg over Time), optional WHERE below; half of the queries are wrapped by an outer query: HAVING-like WHERE above with every inner column projected, or a projection of a SUBSET of the inner columns that leaves 2 or more (possibly all) of >=3 inner aggregates unused, with an optional WHERE over the kept columns (the optimiser deletes the unused aggregates from the inner GROUP BY); "+
 			"every query is run twice through the real binary: plain (hash-based implementation) and with TRIGGER COUNTING 1000000, ON END OF STREAM under an outer ORDER BY (btree/trigger implementation, consolidated); "+
-			"oracle = reference grouping (one row per distinct key incl. NULL, aggregates over non-NULL inputs, NULL for none, AVG(Int) truncating, array_agg ascending). non-trivial: (>=2 groups or a NULL key or an all-NULL aggregate input) and some group with >=2 rows. distinct=(SQL, file)",
-		"floats are dyadic so sums are exact in any order; a GROUP BY without any aggregate is outside the quantifier (1-4 aggregates)")
+			"oracle = reference grouping (one row per distinct key incl. NULL, aggregates over non-NULL inputs, NULL for none, AVG(Int) truncating, array_agg ascending; a Time key/argument is an instant: two spellings of one instant are one group and one DISTINCT value, which spelling is printed is left open - printed times are compared as instants). non-trivial: (>=2 groups or a NULL key or an all-NULL aggregate input) and some group with >=2 rows. distinct=(SQL, file)",
+		"floats are dyadic so sums are exact in any order; a GROUP BY written without any aggregate is outside the quantifier (1-5 aggregates)")
 	ev.Check(t, r, "groupby_vs_model", ev.N(4000, 100000), func(t *rapid.T) QueryCase {
-		tbl := gen.Table(t, gen.TableOpts{Name: "tab", MinRows: 0, MaxRows: 12, MinCols: 2})
+		tbl := gen.Table(t, gen.TableOpts{Name: "tab", MinRows: 0, MaxRows: 12, MinCols: 2, Time: true})
 		q := gen.GroupQuery(t, tbl, gen.GroupOpts{}, "q")
 		return QueryCase{Tables: []gen.TableSpec{tbl}, Q: q, SQL: q.SQL(), Mode: "json", NoOpt: rapid.IntRange(0, 5).Draw(t, "noopt") == 0}
 	}, c03Prop)
